@@ -3,8 +3,8 @@ usage: store_seeded.py  (reads /tmp/mut, /tmp/seedeval)"""
 import json, pathlib, re, shutil
 import sys
 ROUND = sys.argv[1] if len(sys.argv) > 1 else "1"
-MUT = pathlib.Path({"1": "/tmp/mut", "2": "/tmp/mut2", "3": "/tmp/mut3", "4": "/tmp/mut4", "5": "/tmp/mut5"}[ROUND])
-EV = pathlib.Path({"1": "/tmp/seedeval", "2": "/tmp/seedeval2", "3": "/tmp/seedeval3", "4": "/tmp/seedeval4", "5": "/tmp/seedeval5"}[ROUND])
+MUT = pathlib.Path({"1": "/tmp/mut", "2": "/tmp/mut2", "3": "/tmp/mut3", "4": "/tmp/mut4", "5": "/tmp/mut5", "6": "/tmp/mut6"}[ROUND])
+EV = pathlib.Path({"1": "/tmp/seedeval", "2": "/tmp/seedeval2", "3": "/tmp/seedeval3", "4": "/tmp/seedeval4", "5": "/tmp/seedeval5", "6": "/tmp/seedeval6"}[ROUND])
 LOGS = pathlib.Path("/tmp/evalcopies/logs")
 OUT = pathlib.Path("/verif/seeded")
 OUT.mkdir(exist_ok=True)
@@ -20,13 +20,17 @@ for d in sorted(MUT.glob("C??/m?")):
     if not ok:
         print("NOT CONFIRMED", pid, m, r)
         continue
-    meta0 = json.loads((d / "meta.json").read_text())
+    if (d / "meta.json").exists():
+        meta0 = json.loads((d / "meta.json").read_text())
+    else:  # round 6: the agent left free-text notes only
+        notes = (d / "notes.txt").read_text().strip() if (d / "notes.txt").exists() else ""
+        meta0 = {"summary": notes, "needs_to_manifest": "see the change description (agent's notes, verbatim)", "why_tests_pass": "see the change description", "ran": "see the change description"}
     name = f"{pid}_{m}" if ROUND == "1" else f"{pid}_r{ROUND}{m}"
     tgt = OUT / name
     tgt.mkdir(exist_ok=True)
     shutil.copy(d / "patch.diff", tgt / "patch.diff")
     demo = (d / "demo.py").read_text().replace("/tmp/agent_stubs", "/verif/stubs")
-    demo = re.sub(r"/tmp/wt[2345]?/C\d\d(/src)?", "/repo/src", demo)
+    demo = re.sub(r"/tmp/wt[23456]?/C\d\d(/src)?", "/repo/src", demo)
     (tgt / "demo.py").write_text(demo)
     # detection by the property's own check (quick tier), from the last run of tools/seed_check.sh
     # detection: the last scratch-copy run of the property's own check against this change (tools/eval_patch.sh, tag S<round><id><m>)
@@ -63,7 +67,8 @@ for d in sorted(MUT.glob("C??/m?")):
         + ("; second round: the agent was also told which two changes were already known for this property and asked for different mechanisms" if ROUND == "2" else "")
         + ("; third round: the agent was told the mechanisms of the four changes already known for this property and asked for three further, different ones" if ROUND == "3" else "")
         + ("; fourth round: the agent was told the mechanisms of the seven changes already known for this property and asked for three further, different ones" if ROUND == "4" else "")
-        + ("; fifth round (six properties): the agent was told the mechanisms of the ten changes already known for this property, asked for three further ones, with a 40-minute budget" if ROUND == "5" else ""),
+        + ("; fifth round (six properties): the agent was told the mechanisms of the ten changes already known for this property, asked for three further ones, with a 40-minute budget" if ROUND == "5" else "")
+        + ("; sixth round (eight properties, one change each, 15-minute budget, no list of known mechanisms)" if ROUND == "6" else ""),
         "what_the_agent_ran": meta0.get("ran"),
         "what_i_ran_to_confirm": {
             "cmd": f"tools/seed_confirm.sh {pid} {m}  (scratch worktree of /repo HEAD; demo.py on the clean tree, then with patch.diff applied; then the full pinned test suite with the patch)",
